@@ -206,6 +206,43 @@ def main(argv=None):
     rng = random.Random(a.seed)
     gen = lang.Gen(rng, max_depth=3)
     n = a.n or (40 if a.tier == "quick" else 800)
+    # ---- directed: a state that no expression reads and whose name the step function uses for itself (the step assigns
+    # every state, read or not): the text is either refused or stepped like any other model, with and without remove_unused
+    for name in ("dt", "t", "time", "states", "parameters", "values", "acc"):
+        text = f"states(x=1.0, {name}=0.3)\nparameters(a=2.0, b=0.5)\nrate = a*x\ndx_dt = -rate\nd{name}_dt = b\n"
+        for ru in (False, True):
+            for be in ("numpy", "jax") if name in ("dt", "acc") else ("numpy",):
+                rep.case(key=("unread", name, ru, be), nontrivial=True)
+
+                def one():
+                    ode, _, err, _ = impl.load_text(text)
+                    if err is not None:
+                        rep.count("unread_reserved_state:refused_at_load")
+                        return
+                    try:
+                        code = impl.gen_python(ode, schemes=["explicit_euler"], remove_unused=ru, backend=be)
+                    except Exception:  # noqa: BLE001
+                        rep.count("unread_reserved_state:refused_at_generation")
+                        return
+                    rep.count("unread_reserved_state:generated")
+                    ns = cback.jax_module(code) if be == "jax" else impl.exec_module(code)
+                    fns = impl.export_functions(code)
+                    ss = [s_.name for s_ in ode.sorted_states()]
+                    pn = [p_.name for p_ in ode.parameters]
+                    st = [{"x": 0.75}.get(s_, 0.375) for s_ in ss]
+                    ps = [{"a": 2.0, "b": 0.5}[p_] for p_ in pn]
+                    call = cback.call_jax if be == "jax" else impl.call_numpy
+                    for dt in (0.0, 0.125):
+                        with np.errstate(all="ignore"):
+                            rv = np.array(call(ns["rhs"], fns["rhs"]["args"], 0.25, st, ps), dtype=float)
+                            ev = np.array(call(ns["explicit_euler"], fns["explicit_euler"]["args"], 0.25, st, ps, dt=dt), dtype=float)
+                        want = np.array(st) + dt * rv
+                        if not np.allclose(ev, want, rtol=1e-12, atol=0):
+                            rep.violation(f"a state called {name!r} that no expression reads ({be}, remove_unused={ru}): explicit_euler with dt = {dt} "
+                                          f"returns {ev.tolist()}, states + dt*rhs = {want.tolist()}",
+                                          {"kind": "direct", "text": text, "remove_unused": ru, "backend": be, "dt": dt})
+                            return
+                core.guarded(rep, text, one)
     for i in range(n):
         got = family.new_case(drv, rng, gen, rep)
         if got is None:
@@ -222,7 +259,8 @@ def main(argv=None):
         level="proof",
         rule="random accepted models; non-trivial = at least two states (slot order matters); per model 3 points x dt in "
              "{0, 2^-40, 1, -0.5, 2^20, 1/16}; 5 scheme-name requests in random history with random argument orders called "
-             "positionally; jax on every 8th and C (gcc) on every 4th model in the quick tier",
+             "positionally; jax on every 8th and C (gcc) on every 4th model in the quick tier; directed: an unread state named dt / t / time / "
+             "states / parameters / values, with and without remove_unused (refused, or stepped correctly)",
         trusted_base=["Coq 8.16.1 kernel", "extraction + ocaml/driver.ml", "harness skeleton exporter", "gcc, ctypes, jax as executors"],
         assumptions=["numpy evaluates s + dt*f and dt*f + s identically (IEEE commutativity)"],
     )
